@@ -1220,7 +1220,57 @@ def _save_shape(m: '_Module') -> dict:
         if isinstance(n, ast.Attribute) and n.attr == '_parsed_lumps' and not any(n is x for x in ast.walk(loop)) \
                 and not snapshot:
             raise TranslateError(f'{where}:{n.lineno}: _parsed_lumps used outside the rebuild loop')
-    return {'snapshot': snapshot, 'loop_line': loop.lineno, 'iter': ast.unparse(loop.iter)}
+    # What is left behind when the writer raises (a look inside it fails on a malformed lump): the value was popped and the
+    # lumps of the view were cleared when it was looked at, so the popped value is the only copy.  `restores`: the writer call
+    # sits in a `try` whose handlers (bare / Exception / BaseException) each do nothing but put the popped value back under the
+    # loop variable and re-raise.  Any other store into the cache inside save fails closed.
+    popped_names = set()
+    for n in ast.walk(loop):
+        if isinstance(n, ast.Assign) and len(n.targets) == 1 and isinstance(n.targets[0], ast.Name) and isinstance(n.value, ast.Call) \
+                and isinstance(n.value.func, ast.Attribute) and n.value.func.attr == 'pop' and mentions(n.value.func.value, '_parsed_lumps'):
+            popped_names.add(n.targets[0].id)
+
+    def is_restore(st: ast.stmt) -> bool:
+        return isinstance(st, ast.Assign) and len(st.targets) == 1 and isinstance(st.targets[0], ast.Subscript) \
+            and isinstance(st.targets[0].value, ast.Attribute) and st.targets[0].value.attr == '_parsed_lumps' \
+            and _is_self_attr(st.targets[0].value) and isinstance(st.targets[0].slice, ast.Name) and st.targets[0].slice.id == var \
+            and isinstance(st.value, ast.Name) and st.value.id in popped_names
+    restores = False
+    accounted: set[int] = set()
+    for n in ast.walk(loop):
+        if isinstance(n, ast.Try) and any(isinstance(x, ast.Call) and isinstance(x.func, ast.Subscript) and mentions(x.func.value, '_save_funcs')
+                                          for b in n.body for x in ast.walk(b)):
+            if n.finalbody or n.orelse or not n.handlers:
+                raise TranslateError(f'{where}:{n.lineno}: try around the writer call with else / finally (not modelled)')
+            for h in n.handlers:
+                tname = None if h.type is None else (h.type.id if isinstance(h.type, ast.Name) else '?')
+                if tname not in (None, 'Exception', 'BaseException'):
+                    raise TranslateError(f'{where}:{h.lineno}: handler around the writer call catches {ast.unparse(h.type)} (not modelled)')
+                if len(h.body) == 2 and is_restore(h.body[0]) and isinstance(h.body[1], ast.Raise) and h.body[1].exc is None:
+                    accounted.add(id(h.body[0]))
+                elif len(h.body) == 1 and isinstance(h.body[0], ast.Raise) and h.body[0].exc is None:
+                    pass        # re-raises only: the plain loop
+                else:
+                    raise TranslateError(f'{where}:{h.lineno}: handler around the writer call does something other than putting the '
+                                         f'popped value back and re-raising')
+            restores = all(len(h.body) == 2 for h in n.handlers) and min(pops) < n.lineno
+            # writers may be generators: their body (and the looks in it) runs while the result is consumed.  Every use of
+            # the name bound from the writer call must be inside the same try, otherwise the raise is not covered by it.
+            inside = {id(x) for b in n.body for x in ast.walk(b)}
+            res_names = {st.targets[0].id for b in n.body for st in ast.walk(b)
+                         if isinstance(st, ast.Assign) and len(st.targets) == 1 and isinstance(st.targets[0], ast.Name)
+                         and isinstance(st.value, ast.Call) and isinstance(st.value.func, ast.Subscript) and mentions(st.value.func.value, '_save_funcs')}
+            if not res_names:
+                raise TranslateError(f'{where}:{n.lineno}: the writer result is not bound to a local name inside the try')
+            for x in ast.walk(loop):
+                if isinstance(x, ast.Name) and x.id in res_names and isinstance(x.ctx, ast.Load) and id(x) not in inside:
+                    restores = False        # consumed outside the try: a generator writer raises there
+    for n in ast.walk(fn):
+        if isinstance(n, (ast.Assign, ast.AugAssign, ast.AnnAssign)):
+            for t in (n.targets if isinstance(n, ast.Assign) else [n.target]):
+                if isinstance(t, ast.Subscript) and mentions(t.value, '_parsed_lumps') and id(n) not in accounted:
+                    raise TranslateError(f'{where}:{n.lineno}: save stores into the cache of parsed views')
+    return {'snapshot': snapshot, 'restores': restores, 'loop_line': loop.lineno, 'iter': ast.unparse(loop.iter)}
 
 
 def _container_layout(m: '_Module') -> dict:
@@ -1423,6 +1473,8 @@ def translate() -> tuple[str, dict]:
         '(* statement order of ParsedLump.__get__ (paths: ' + '; '.join(' '.join(ks) for ks in gshape['paths']) + ')',
         f'   and loop shape of BSP.save (line {sshape["loop_line"]}: for ... in {sshape["iter"]}) *)',
         f'Definition bsp_shape : shape := mkShape {cb(gshape["early_main"])} {cb(gshape["early_extra"])} {cb(sshape["snapshot"])}.',
+        '(* when the writer of a view raises inside BSP.save, the value popped for it is put back into the cache before the exception propagates *)',
+        f'Definition bsp_save_restores_on_abort : bool := {cb(sshape["restores"])}.',
         f'Definition bsp_get_parse_uncached : bool := {cb(gshape["parse_uncached"])}.',
         f'Definition bsp_get_clears_to_clear_after_caching : bool := {cb(gshape["clears_to_clear_after_caching"])}.',
         '(* constants of the file container *)',
